@@ -20,6 +20,7 @@ import (
 
 	"github.com/saucelabs/forwarder"
 	"github.com/saucelabs/forwarder/hostsfile"
+	"github.com/saucelabs/forwarder/ruleset"
 	"github.com/saucelabs/forwarder/verifharness/core"
 	"github.com/saucelabs/forwarder/verifharness/reqmodel"
 	"github.com/saucelabs/forwarder/verifharness/rig"
@@ -57,9 +58,16 @@ type item struct {
 type connCase struct {
 	Kind     string `json:"kind"`      // "conn"
 	Mask     int    `json:"mask"`      // enabled controls (ctl* bits)
-	TimeOpen bool   `json:"time_open"` // the configured time frames allow "now" (meaningful with ctlTime)
+	TimeOpen bool   `json:"time_open"` // day-granular frames (Frames == ""): they allow "now" (meaningful with ctlTime)
 	Mode     string `json:"mode"`      // "direct" | "upstream" | "mitm"
-	Items    []item `json:"items"`
+	// Frames: hour-granular frame family laid around the local (or the UTC) wall clock at the time the
+	// proxy is started, see frameKinds; "" = the day-granular open/closed frames of TimeOpen
+	Frames string `json:"frames,omitempty"`
+	// Zone: the process-wide local time zone the proxy runs in ("" = the harness's own, UTC in the
+	// sandbox): "tz:<IANA name>" (TZ in the environment of a child process) or "fixed:<seconds east>"
+	// (time.Local assigned in a child process before anything starts), see zones.go
+	Zone  string `json:"zone,omitempty"`
+	Items []item `json:"items"`
 }
 
 type dialRec struct{ pre, post string }
@@ -69,6 +77,7 @@ type env struct {
 	mask     int
 	timeOpen bool
 	mode     string
+	frameKind string
 	mu       sync.Mutex // one client connection at a time (activity is attributed by counters)
 	proxy    *rig.Proxy
 	origin   *rig.Peer // catch-all plain origin ("sink")
@@ -134,8 +143,8 @@ func timeFrames(open bool) []reqmodel.TimeFrame {
 	return []reqmodel.TimeFrame{{Weekday: (wd + 3) % 7, HourStart: 0, HourEnd: 24}, {Weekday: (wd + 4) % 7, HourStart: 9, HourEnd: 17}}
 }
 
-func newEnv(ctx *core.Ctx, mask int, timeOpen bool, mode string) (*env, error) {
-	e := &env{mask: mask, timeOpen: timeOpen, mode: mode, names: localNames()}
+func newEnv(ctx *core.Ctx, mask int, timeOpen bool, mode string, frameKind string) (*env, error) {
+	e := &env{mask: mask, timeOpen: timeOpen, mode: mode, frameKind: frameKind, names: localNames()}
 	var err error
 	if e.origin, err = rig.NewPeer("origin", okResponder); err != nil {
 		return nil, err
@@ -171,7 +180,20 @@ func newEnv(ctx *core.Ctx, mask int, timeOpen bool, mode string) (*env, error) {
 		fc.Base.DenyRules = denyRules
 	}
 	if mask&ctlTime != 0 {
-		e.frames = timeFrames(timeOpen)
+		if frameKind != "" {
+			e.frames = hourFrames(frameKind, time.Now())
+		} else {
+			e.frames = timeFrames(timeOpen)
+		}
+		// every entry goes through the flag parser as well (what --allow-time-frame does)
+		for _, f := range e.frames {
+			repr := fmt.Sprintf("%s/%d-%d", dayNames[f.Weekday], f.HourStart, f.HourEnd)
+			pe, err := ruleset.ParseTimeFrameEntry(repr)
+			if err != nil || int(pe.Weekday) != f.Weekday || pe.HourStart != f.HourStart || pe.HourEnd != f.HourEnd {
+				ctx.Disagree("ParseTimeFrameEntry(weekday/start-end) yields that entry", map[string]any{"kind": "time-frame", "repr": repr},
+					fmt.Sprintf("%+v %v", pe, err), fmt.Sprintf("%+v", f))
+			}
+		}
 	}
 	switch mode {
 	case "upstream":
@@ -313,8 +335,8 @@ func hostOf(authority string) (string, bool) {
 	return u.Hostname(), true
 }
 
-func (e *env) spec(hostname string, pa []string) (verdict, string) {
-	if e.mask&ctlTime != 0 && !e.timeOpen {
+func (e *env) spec(timeAllowed bool, hostname string, pa []string) (verdict, string) {
+	if e.mask&ctlTime != 0 && !timeAllowed {
 		return verdict{true, 451, "time-frame"}, ""
 	}
 	if e.mask&ctlAuth != 0 {
@@ -348,6 +370,11 @@ type oneItem struct {
 	Mask     int    `json:"mask"`
 	TimeOpen bool   `json:"time_open"`
 	Mode     string `json:"mode"`
+	Frames   string `json:"frames,omitempty"`
+	Zone     string `json:"zone,omitempty"`
+	// informative (a replay lays the frame family around the clock of the replaying run)
+	FramesUsed []reqmodel.TimeFrame `json:"frames_used,omitempty"`
+	LocalClock string               `json:"local_clock,omitempty"`
 	Position int    `json:"position"`
 	Inner    bool   `json:"inner,omitempty"` // sent inside the intercepted tunnel
 	Prefix   []item `json:"prefix,omitempty"`
@@ -401,12 +428,51 @@ func (it *item) wire() []byte {
 	return it.Req.Wire()
 }
 
-func (e *env) clockNow() *reqmodel.Clock {
+// clockAt: what the model is told about the time — the instant and the local zone's offset; it reads
+// the local wall clock itself (Model/C04.lean timeAllowedAt).
+func (e *env) clockAt(now time.Time) *reqmodel.Clock {
 	if e.mask&ctlTime == 0 {
 		return &reqmodel.Clock{}
 	}
-	now := time.Now()
-	return &reqmodel.Clock{Entries: e.frames, Weekday: int(now.Weekday()), Hour: now.Hour()}
+	_, off := now.Zone()
+	return &reqmodel.Clock{Entries: e.frames, At: true, Unix: now.Unix(), Offset: off}
+}
+
+// specTimeAllowed: the documented meaning of --allow-time-frame evaluated on the local wall clock,
+// computed from the instant and the zone offset by integer arithmetic (not by time.Time's accessors,
+// not by the model).
+func specTimeAllowed(frames []reqmodel.TimeFrame, now time.Time) bool {
+	if len(frames) == 0 {
+		return true
+	}
+	wd, hour := wallClock(now)
+	for _, f := range frames {
+		if f.Weekday == wd && f.HourStart <= hour && hour < f.HourEnd {
+			return true
+		}
+	}
+	return false
+}
+
+func floorDiv(a, b int64) int64 {
+	q := a / b
+	if a%b != 0 && (a < 0) != (b < 0) {
+		q--
+	}
+	return q
+}
+
+// wallClock: weekday (Sunday = 0) and hour of the instant's wall clock in the zone the value carries.
+func wallClock(t time.Time) (weekday, hour int) {
+	_, off := t.Zone()
+	x := t.Unix() + int64(off)
+	day := floorDiv(x, 86400)
+	return int(((day+4)%7 + 7) % 7), int((x - day*86400) / 3600)
+}
+
+func localHourIndex(t time.Time) int64 {
+	_, off := t.Zone()
+	return floorDiv(t.Unix()+int64(off), 3600)
 }
 
 func (e *env) runConn(ctx *core.Ctx, cc *connCase) {
@@ -421,11 +487,16 @@ func (e *env) runConn(ctx *core.Ctx, cc *connCase) {
 	secure := false
 	for i := range cc.Items {
 		it := &cc.Items[i]
-		one := oneItem{Kind: "one", Mask: cc.Mask, TimeOpen: cc.TimeOpen, Mode: cc.Mode, Position: i, Inner: secure, Prefix: cc.Items[:i], Item: *it}
+		one := oneItem{Kind: "one", Mask: cc.Mask, TimeOpen: cc.TimeOpen, Mode: cc.Mode, Frames: cc.Frames, Zone: cc.Zone, Position: i, Inner: secure,
+			Prefix: cc.Items[:i], Item: *it}
 		before := e.quiesce()
 		d0 := e.dialCount()
 		mctx := reqmodel.Ctx{ClientIP: "127.0.0.1", Secure: secure}
-		clock := e.clockNow()
+		now := time.Now()
+		clock := e.clockAt(now)
+		if e.mask&ctlTime != 0 {
+			one.FramesUsed, one.LocalClock = e.frames, now.Format("Mon 2006-01-02 15:04:05 -07:00 MST")
+		}
 
 		if err := c.Send(it.wire(), nil); err != nil {
 			ctx.Crash("client connection stays usable", "", one, "write: "+err.Error())
@@ -434,6 +505,13 @@ func (e *env) runConn(ctx *core.Ctx, cc *connCase) {
 		res, rerr := c.ReadResponse(it.method(), 10*time.Second)
 		after := e.quiesce()
 		dials := e.dialsFrom(d0)
+		if e.mask&ctlTime != 0 && localHourIndex(time.Now()) != localHourIndex(now) {
+			// the local clock hour changed while the request was in flight: which hour the proxy read is
+			// not known, the case is not judged
+			ctx.Count("hour-boundary-not-judged")
+			return
+		}
+		timeAllowed := specTimeAllowed(e.frames, now)
 
 		var out reqmodel.Outcome
 		if it.Connect != nil {
@@ -444,8 +522,29 @@ func (e *env) runConn(ctx *core.Ctx, cc *connCase) {
 		authority, hasAuthority := it.authority()
 		hn, hostOK := hostOf(authority)
 		key := fmt.Sprintf("%d|%v|%s|%v|%s", cc.Mask, cc.TimeOpen, cc.Mode, secure, it.wire())
+		if cc.Frames != "" || cc.Zone != "" {
+			key += "|" + cc.Frames + "|" + cc.Zone
+		}
 		pa := paValues(it.fields())
-		sv, class := e.spec(hn, pa)
+		sv, class := e.spec(timeAllowed, hn, pa)
+		if e.mask&ctlTime != 0 {
+			ctx.Count("time-frame/" + map[bool]string{true: "allows-now", false: "outside"}[timeAllowed])
+			if cc.Frames != "" {
+				ctx.Count("time-frame-family/" + cc.Frames)
+			}
+			if uw, uh := wallClock(now.UTC()); true {
+				lw, lh := wallClock(now)
+				if lw != uw {
+					ctx.Count("time-frame/local-weekday-differs-from-utc")
+				}
+				if lh != uh {
+					ctx.Count("time-frame/local-hour-differs-from-utc")
+				}
+			}
+		}
+		if cc.Zone != "" {
+			ctx.Count("zone/" + cc.Zone)
+		}
 		nontrivial := e.mask != 0 && (sv.refuse || len(pa) > 0 || it.Connect != nil)
 		ctx.Case(key, nontrivial)
 		ctx.Count("controls/" + fmt.Sprint(cc.Mask))
@@ -591,35 +690,50 @@ type envKey struct {
 	mask     int
 	timeOpen bool
 	mode     string
+	frames   string
+}
+
+type envSlot struct {
+	once sync.Once
+	env  *env
+	err  error
 }
 
 type envPool struct {
 	mu   sync.Mutex
-	envs map[envKey]*env
+	envs map[envKey]*envSlot
 	ctx  *core.Ctx
 }
 
-func (p *envPool) get(mask int, timeOpen bool, mode string) (*env, error) {
+func newEnvPool(ctx *core.Ctx) *envPool { return &envPool{envs: map[envKey]*envSlot{}, ctx: ctx} }
+
+func (p *envPool) get(mask int, timeOpen bool, mode string, frames string) (*env, error) {
 	if mask&ctlTime == 0 {
+		timeOpen, frames = true, ""
+	}
+	if frames != "" {
 		timeOpen = true
 	}
-	k := envKey{mask, timeOpen, mode}
+	k := envKey{mask, timeOpen, mode, frames}
 	p.mu.Lock()
-	defer p.mu.Unlock()
-	if e, ok := p.envs[k]; ok {
-		return e, nil
+	sl, ok := p.envs[k]
+	if !ok {
+		sl = &envSlot{}
+		p.envs[k] = sl
 	}
-	e, err := newEnv(p.ctx, mask, timeOpen, mode)
-	if err != nil {
-		return nil, err
-	}
-	p.envs[k] = e
-	return e, nil
+	p.mu.Unlock()
+	// environments are started outside the pool's lock (several at a time)
+	sl.once.Do(func() { sl.env, sl.err = newEnv(p.ctx, mask, timeOpen, mode, frames) })
+	return sl.env, sl.err
 }
 
 func (p *envPool) closeAll() {
-	for _, e := range p.envs {
-		e.close()
+	p.mu.Lock()
+	defer p.mu.Unlock()
+	for _, sl := range p.envs {
+		if sl.env != nil {
+			sl.env.close()
+		}
 	}
 }
 
@@ -627,11 +741,21 @@ func Run(ctx *core.Ctx) {
 	ctx.SetRule("keep-alive client connections of 1-4 generated requests (GET/POST/PUT/HEAD/CONNECT; origin-, absolute- and authority-form targets; " +
 		"hosts: routed names, deny-list hits and exclusions, localhost names and hosts-file aliases in any case, IPv4/IPv6 loopback and unspecified literals " +
 		"in canonical, expanded, compressed and IPv4-mapped spellings, other addresses; with/without port; Proxy-Authorization absent, right, scheme-case " +
-		"variants, wrong scheme, malformed base64, prefix/suffix/case variants of user and password, repeated lines) through the real proxy under all 16 " +
-		"combinations of the four controls (time frame open or closed now), directly, through an upstream proxy and inside an intercepted tunnel; " +
-		"non-trivial = some control enabled and (the property refuses the request, or it carries Proxy-Authorization, or it is a CONNECT); " +
-		"distinct = distinct (configuration, position kind, request bytes)")
-	pool := &envPool{envs: map[envKey]*env{}, ctx: ctx}
+		"variants, wrong scheme / other scheme spellings, malformed base64, padding and alphabet variants, and the family of credentials NEAR the configured pair: " +
+		"user/password boundary shifted with the same concatenation, prefixes, suffixes, extensions, case variants, swapped, reversed, permuted, doubled colon, " +
+		"empty user or password, space-padded, one part right, one byte changed, repeated; near credentials on the first line with the right ones on a second " +
+		"line and vice versa) through the real proxy under all 16 combinations of the four controls, directly, through an upstream proxy and inside an " +
+		"intercepted tunnel; time frames: whole days open/closed now, and hour-granular families laid around the local and the UTC wall clock (this hour, all but " +
+		"this hour, from/until this hour, next/previous hour, other days this hour, the UTC hour, the UTC day, all but the UTC day, random), judged at request " +
+		"time on the local wall clock computed from instant + zone offset; the same in child processes whose local time zone is not UTC (TZ=<IANA zone> with " +
+		":30/:45 and DST zones, and fixed offsets chosen so that the local weekday differs from the UTC weekday); API level: net.ParseIP / IsLoopback / " +
+		"IsUnspecified, url host splitting, ParseTimeFrameEntry + TimeFrameEntry.Match on explicit time.Time values in fixed (-12h..+14h, :30, :45, LMT, odd " +
+		"seconds) and IANA zones, BasicAuth.AuthenticatedRequest under many configured pairs (passwords with colons, empty password, equal user and password, " +
+		"non-ASCII) with the near family; " +
+		"non-trivial = some control enabled and (the property refuses the request, or it carries Proxy-Authorization, or it is a CONNECT); API cases: every " +
+		"zoned time-frame case, every basic-auth case with a value; distinct = distinct (configuration, zone, frame family, position kind, request bytes)")
+	maybeZoneChild(ctx)
+	pool := newEnvPool(ctx)
 	defer pool.closeAll()
 	for _, c := range core.LoadCorpus(ctx.Root, "C04") {
 		replayWith(ctx, pool, c)
@@ -645,7 +769,7 @@ func Run(ctx *core.Ctx) {
 		go func() {
 			defer wg.Done()
 			for cc := range jobs {
-				e, err := pool.get(cc.Mask, cc.TimeOpen, cc.Mode)
+				e, err := pool.get(cc.Mask, cc.TimeOpen, cc.Mode, cc.Frames)
 				if err != nil {
 					ctx.Crash("proxy starts with a valid configuration", "", cc, err.Error())
 					continue
@@ -664,6 +788,7 @@ func Run(ctx *core.Ctx) {
 	}
 	close(jobs)
 	wg.Wait()
+	runZones(ctx)
 	var ks []string
 	for k := range pool.envs {
 		ks = append(ks, fmt.Sprintf("%d/%v/%s", k.mask, k.timeOpen, k.mode))
@@ -679,7 +804,7 @@ func replayWith(ctx *core.Ctx, pool *envPool, raw json.RawMessage) {
 	json.Unmarshal(raw, &k)
 	var cc connCase
 	switch k.Kind {
-	case "ip-literal", "host-split", "time-frame", "basic-auth":
+	case "ip-literal", "host-split", "time-frame", "time-frame-zoned", "basic-auth":
 		// API-level cases are regenerated from the seed; a recorded one is re-evaluated by value
 		replayAPI(ctx, k.Kind, raw)
 		return
@@ -688,13 +813,18 @@ func replayWith(ctx *core.Ctx, pool *envPool, raw json.RawMessage) {
 		if err := json.Unmarshal(raw, &o); err != nil {
 			core.Fatalf("bad C04 case: %v", err)
 		}
-		cc = connCase{Kind: "conn", Mask: o.Mask, TimeOpen: o.TimeOpen, Mode: o.Mode, Items: append(append([]item{}, o.Prefix...), o.Item)}
+		cc = connCase{Kind: "conn", Mask: o.Mask, TimeOpen: o.TimeOpen, Mode: o.Mode, Frames: o.Frames, Zone: o.Zone, Items: append(append([]item{}, o.Prefix...), o.Item)}
 	default:
 		if err := json.Unmarshal(raw, &cc); err != nil {
 			core.Fatalf("bad C04 case: %v", err)
 		}
 	}
-	e, err := pool.get(cc.Mask, cc.TimeOpen, cc.Mode)
+	if cc.Zone != currentZone {
+		// the case belongs to a process whose local time zone is cc.Zone
+		runZoneChild(ctx, zoneJob{Zone: cc.Zone, Cases: []connCase{cc}})
+		return
+	}
+	e, err := pool.get(cc.Mask, cc.TimeOpen, cc.Mode, cc.Frames)
 	if err != nil {
 		ctx.Crash("proxy starts with a valid configuration", "", cc, err.Error())
 		return
@@ -703,7 +833,8 @@ func replayWith(ctx *core.Ctx, pool *envPool, raw json.RawMessage) {
 }
 
 func Replay(ctx *core.Ctx, raw json.RawMessage) {
-	pool := &envPool{envs: map[envKey]*env{}, ctx: ctx}
+	maybeZoneChild(ctx)
+	pool := newEnvPool(ctx)
 	defer pool.closeAll()
 	replayWith(ctx, pool, raw)
 }
